@@ -9,6 +9,7 @@ import (
 	"encoding/hex"
 	"errors"
 	"fmt"
+	"github.com/olric-data/olric/config"
 	"strconv"
 	"strings"
 	"time"
@@ -278,6 +279,16 @@ func ClusterClient(m *cluster.Member) (Path, error) {
 		return nil, err
 	}
 	return &dmapPath{name: fmt.Sprintf("cc@%d", m.Index), client: c, dms: map[string]olric.DMap{}}, nil
+}
+
+// ImpatientClusterClient is a cluster client whose read timeout is shorter than the deadlines it will ask for in Lock calls
+// (the default read timeout is 3 s; any Lock with a longer deadline is in this situation).
+func ImpatientClusterClient(m *cluster.Member, readTimeout time.Duration) (Path, error) {
+	c, err := olric.NewClusterClient([]string{m.Name}, olric.WithConfig(&config.Client{ReadTimeout: readTimeout, WriteTimeout: readTimeout}))
+	if err != nil {
+		return nil, err
+	}
+	return &dmapPath{name: fmt.Sprintf("cc-impatient@%d", m.Index), client: c, dms: map[string]olric.DMap{}}, nil
 }
 
 // ---------------------------------------------------------------- raw RESP
